@@ -62,6 +62,77 @@ def scratch_root() -> str:
     return os.path.join(_SCRATCH_BASE, "dsim-%d" % os.getpid())
 
 
+import logging as _logging
+
+
+class _FormattingHandler(_logging.Handler):
+    """What an application that lowered the log level has: a handler that formats every record (and drops the text)."""
+
+    def emit(self, record):
+        try:
+            self.format(record)
+        except Exception:
+            pass
+
+
+_FORMATTING_HANDLER = _FormattingHandler()
+
+
+def host_env(debug_logging: bool, warnings_as_errors: bool):
+    """The host application's process-wide configuration around a library call: logging lowered to DEBUG with a handler that
+    formats every record, and / or warnings escalated to errors. Returns a context manager."""
+    import contextlib
+    import logging
+    import warnings
+    stack = contextlib.ExitStack()
+    if warnings_as_errors:
+        stack.enter_context(warnings.catch_warnings())
+        warnings.simplefilter("error")
+    if debug_logging:
+        lg = logging.getLogger("pydsdl")
+        old_state = (logging.root.manager.disable, lg.level, lg.propagate)
+        logging.disable(logging.NOTSET)
+        lg.setLevel(logging.DEBUG)
+        lg.addHandler(_FORMATTING_HANDLER)
+        lg.propagate = False
+
+        def _restore():
+            lg.removeHandler(_FORMATTING_HANDLER)
+            lg.setLevel(old_state[1])
+            lg.propagate = old_state[2]
+            logging.disable(old_state[0])
+        stack.callback(_restore)
+    return stack
+
+
+class HostedLibrary:
+    """`pydsdl` as a client sees it whose process runs with the given configuration: attribute access is forwarded to the real
+    module; serialize() / deserialize() run inside host_env()."""
+
+    def __init__(self, debug_logging: bool, warnings_as_errors: bool):
+        import pydsdl as _real
+        self._real = _real
+        self._env = (debug_logging, warnings_as_errors)
+
+    def __getattr__(self, name):
+        return getattr(self._real, name)
+
+    def serialize(self, *a, **kw):
+        with host_env(*self._env):
+            return self._real.serialize(*a, **kw)
+
+    def deserialize(self, *a, **kw):
+        with host_env(*self._env):
+            return self._real.deserialize(*a, **kw)
+
+
+def hosted_library(ws: dict) -> HostedLibrary:
+    import zlib
+    from ..core.scenario import cjson
+    h = zlib.crc32(b"host" + cjson(ws).encode("ascii"))
+    return HostedLibrary(h % 4 == 0, (h >> 4) % 3 == 0)
+
+
 class World:
     def __init__(self, scn: dict):
         self.scn = scn
@@ -77,6 +148,11 @@ class World:
         self.mtime_policy = scn.get("mtime") or ["advance", "same", "back"][zlib.crc32(cjson(scn["ws"]).encode("ascii")) % 3]
         self.mtime_faults = 0
         self._mtimes: dict[str, int] = {}
+        # process configuration the host application owns (a pure function of the workspace): the pydsdl logger at DEBUG with a
+        # formatting handler, and warnings escalated to errors. Neither may change any result.
+        h = zlib.crc32(b"env" + cjson(scn["ws"]).encode("ascii"))
+        self.debug_logging = scn.get("debug_logging", h % 4 == 0)
+        self.warnings_as_errors = scn.get("warnings_as_errors", (h >> 4) % 4 == 0)
         self.lmaps: dict[str, dict] = {}
         self.texts: dict[str, str] = {}
         self.prints: list[tuple[str, int, str]] = []
@@ -229,6 +305,25 @@ class World:
                 def __call__(self, path, line, text):
                     sink.append((str(path), line, text))
             return CollectingList()
+        if kind in ("varargs_fn", "varargs_method", "varargs_partial"):
+            # handlers that do not spell out three named parameters
+            def record(*args):
+                if len(args) == 3:
+                    sink.append((str(args[0]), args[1], args[2]))
+                else:
+                    sink.append(("<handler called with %d arguments>" % len(args), args[0] if args else None, str(args[-1]) if args else ""))
+            if kind == "varargs_fn":
+                return lambda *a: record(*a)
+            if kind == "varargs_method":
+                class Sink:
+                    def on_print(self, *args):
+                        record(*args)
+                return Sink().on_print
+            import functools
+
+            def tagged(tag, *rec):
+                record(*rec)
+            return functools.partial(tagged, "tag")
         if kind == "falsy_obj":
             class Collector:
                 def __len__(self):
@@ -264,8 +359,10 @@ class World:
             fn = pydsdl.read_files
         else:
             raise ValueError(op["op"])
+        stack = host_env(self.debug_logging, self.warnings_as_errors)
         try:
-            res = fn(*args, **kw)
+            with stack:
+                res = fn(*args, **kw)
             if op["op"] == "rn":
                 out.update(ok=True, direct=res)
             else:
